@@ -108,5 +108,14 @@ example : Src.parse_float (floatOf .double) .double .null = .raise .type := rfl
 example : Src.dump_enum C20.exCls 1 = .ok (some (.name 0)) ∧ Src.dump_enum C20.exCls 7 = .ok (some (.num 7)) := by decide
 example : (Src.parse_enum C20.exCls (.name 2)).bind (fun p => .ok p.1.number) = .ok 1
     ∧ Src.parse_enum C20.exCls (.name 9) = .raise .value := ⟨by decide, rfl⟩
+/-- the hypotheses of `src_parse_float_other`: a numeric string -/
+example : canonFloatJ (.str [49, 46, 53]) = true ∧ ∀ k, k < 3 → JVal.str [49, 46, 53] ≠ .fstr k :=
+  ⟨rfl, fun _ _ h => by cases h⟩
+/-- the bridge on the enum `A = 1; B = 2; ALIAS = 1` of the JSON model -/
+def exE : EnumDef := [⟨[65], [65], 1⟩, ⟨[66], [66], 2⟩, ⟨[67], [67], 1⟩]
+example : NamesNodup (declOf exE) = true := by decide
+example : Src.dump_enum (clsOf exE) 1 = .ok (some (.name [65])) ∧ Src.dump_enum (clsOf exE) 5 = .ok (some (.num 5)) := by decide
+example : (Src.parse_enum (clsOf exE) (.name [67])).bind (fun p => .ok p.1.number) = .ok 1 := by decide
+example : NamesNodup C20.exD = true := by decide
 
 end Bp.C05
